@@ -921,10 +921,10 @@ pub fn run(ctx: &Ctx) {
     ctx.rule("input trees: up to 6 in-memory files (0-5 lines each, with/without final newline, empty files, lines ending inside groups/conditionals) over tags, blanks, braces, \\iftrue/\\iffalse/\\else/\\fi, comments, blank lines (\\par defined as a tag), \\input and \\endinput at any position of a line; output compared with a small TeX interpreter (line scanner + source stack + conditional skipping) that treats files as lines standing in place; plus nesting-depth probes. read: scripts of \\openin/\\read/\\ifeof/\\closein over 4 streams, files with balanced and unbalanced line groups, scripted terminal; the macro body defined by each \\read (captured unexpanded) and every \\ifeof must equal TeX's read_toks model. non-trivial = nesting depth>=2 or text after \\input/\\endinput on its line; for read: a read spanning lines, a read at end of file, or >=2 reads of one file; distinct by rendered case");
     ctx.assume("\\input after \\endinput on the same line is not generated (TeX's global force_eof closes the nested file after its first line)");
     ctx.assume("inputs on which TeX itself reports an error (extra }, \\else, \\fi; a file ending while conditional text is skipped; unbalanced \\read at end of file; exhausted terminal) are skipped and counted");
-    let n = ctx.tier.pick(40_000u64, 1_000_000u64);
+    let n = ctx.tier.pick(250_000u64, 3_000_000u64);
     run_generated(ctx, "input_tree", n, tree_strategy, |c: &TreeCase, case| tree_oracle(ctx, c, case));
     let depths: Vec<DepthCase> = [1usize, 2, 5, 50, 90, 98, 99, 101, 102, 150].iter().flat_map(|d| [DepthCase { depth: *d, trailing: true }, DepthCase { depth: *d, trailing: false }]).collect();
     run_list(ctx, "input_depth", depths, |c: &DepthCase, case| depth_oracle(c, case));
-    let n = ctx.tier.pick(40_000u64, 1_000_000u64);
+    let n = ctx.tier.pick(250_000u64, 3_000_000u64);
     run_generated(ctx, "read_streams", n, read_case_strategy, |c: &ReadCase, case| read_oracle(ctx, c, case));
 }
